@@ -158,7 +158,7 @@ def shard(idx, n, seed, tier, params):
         w = {"main.asm": src, "mos.toml": toml, "exit": r["rc"], "stdout": r["out"][-500:], "stderr": r["err"][-300:],
              "files": {k: v.hex() for k, v in got.items()}, "expected": exp if verdict == "error" else {k: v.hex() for k, v in exp.items()}}
         nseg, nbank = len(cfg["segments"]), len(cfg["banks"])
-        if r["timeout"] or r["rc"] in (97, 101) or (r["rc"] or 0) < 0:
+        if r["timeout"] or r["rc"] in (96, 97, 101) or (r["rc"] or 0) < 0:
             acc.inconc("build did not finish normally (exit %s): %s" % (r["rc"], r["err"][-100:]))
             continue
         for sh in shape(cfg):
